@@ -351,10 +351,13 @@ def reload_with_inflight(kind1: int, kind2: int, seq1: bool, late: bool, mvg: in
     return orc.result()
 
 
-def description_report_faults(mod1: int, mod2: int, mv0: int, mv1: int, mv2: int, dv: int, sv: int) -> str:
+def description_report_faults(mod1: int, mod2: int, mv0: int, mv1: int, mv2: int, dv: int, sv: int, dv2: int = 0, sv2: int = 0) -> str:
     """
     Two DescriptionModificationReports with one part each (0 CREATE m9+state, 1 UPDATE m1+state, 2 DELETE m1) with arbitrary
-    MdibVersions (stale, duplicate, in order): lookups stay consistent, versions never decrease, stale ones change nothing.
+    MdibVersions (stale, duplicate, in order) and arbitrary DescriptorVersion / StateVersion per report: no report makes the
+    handler fail, lookups stay consistent, versions never decrease, stale ones change nothing.
+    pre: dv2 >= 0
+    pre: sv2 >= 0
     pre: 0 <= mod1 <= 2
     pre: 0 <= mod2 <= 2
     pre: mv0 >= 0
@@ -370,7 +373,7 @@ def description_report_faults(mod1: int, mod2: int, mv0: int, mv1: int, mv2: int
         cm = k.mk_consumer(mv0, alerts=False, contexts=False)
         dmt = msg_types.DescriptionModificationType
 
-        def mk(mod, mv):
+        def mk(mod, mv, dv, sv):
             rep = msg_types.DescriptionModificationReport()
             rep.set_mdib_version_group(MdibVersionGroup(mv, k.SEQ, 1))
             part = rep.add_report_part()
@@ -389,16 +392,28 @@ def description_report_faults(mod1: int, mod2: int, mv0: int, mv1: int, mv2: int
                 part.State.append(st)
             return rep
 
-        for tag, mod, mv in (('r1', mod1, mv1), ('r2', mod2, mv2)):
+        def state_versions():
+            with untraced():
+                return {s.DescriptorHandle: s.StateVersion for s in cm.states.objects}
+
+        for tag, mod, mv, dvx, svx in (('r1', mod1, mv1, dv, sv), ('r2', mod2, mv2, dv2, sv2)):
             pre_mv = cm.mdib_version
             with untraced():
                 pre_handles = sorted(d.Handle for d in cm.descriptions.objects)
+            pre_sv = state_versions()
             raised = False
             try:
-                cm.process_incoming_description_modifications(MdibVersionGroup(mv, k.SEQ, 1), mk(mod, mv))
-            except KeyError:
-                raised = True        # duplicate CREATE is rejected by the unique index; allowed as long as nothing changes
+                cm.process_incoming_description_modifications(MdibVersionGroup(mv, k.SEQ, 1), mk(mod, mv, dvx, svx))
+            except Exception:  # noqa: BLE001
+                raised = True
+            # a duplicated / re-ordered report is an ordinary delivery fault: the handler must cope with it (an exception here
+            # leaves reload_all in the middle of its replay, or drops the remaining parts of the report)
+            orc.check(not raised, tag + ':description-report-makes-the-handler-fail')
             orc.check(cm.mdib_version >= pre_mv, tag + ':mdib-version-decreased')
+            post_sv = state_versions()
+            for h in pre_sv:
+                if h in post_sv:
+                    orc.check(post_sv[h] >= pre_sv[h], tag + ':state-version-decreased')
             with untraced():
                 post_handles = sorted(d.Handle for d in cm.descriptions.objects)
             if mv < pre_mv:
@@ -469,6 +484,95 @@ def faulty_waveforms(mv0: int, sv0: int, mv1: int, sv1: int, mv2: int, sv2: int)
             buf = cm.rt_buffers.get('rt0')
             got = [] if buf is None else [c.value for c in buf.rt_data]
             orc.check(got == expected, tag + ':waveform-buffer-differs-from-applied-notifications')
+        orc.check(_indices_ok(cm), 'index!=scan')
+    except Exception as ex:  # noqa: BLE001
+        return exc_result(orc, ex)
+    return orc.result()
+
+
+class _GetService2:
+    """GetMdib stub for reload_with_description_reports: delivers the in-flight notifications, answers with the small MDIB
+    (+ m9 when the answer already contains the created metric)."""
+
+    def __init__(self, cm, mv, with_m9, during):
+        self.cm, self.mv, self.with_m9, self.during = cm, mv, with_m9, during
+
+    def get_mdib(self):
+        from sdc11073.mdib import descriptorcontainers as dc
+        for fn in self.during:
+            fn()
+        ds = _small_containers(False)
+        if self.with_m9:
+            ds.append(dc.StringMetricDescriptorContainer('m9', 'ch0'))
+        k.set_source_mds(ds)
+        sts = k.mk_states(self.cm, ds)
+        ctx = _ctx_state(self.cm, 0, 'getmdib', descr=[d for d in ds if d.Handle == 'pc0'][0])
+        return types.SimpleNamespace(result=(ds, sts + [ctx]), mdib_version_group=MdibVersionGroup(self.mv, k.SEQ, 1))
+
+
+def reload_with_description_reports(mvg: int, mv1: int, copies: int, state_first: bool, other_instance: bool, in_answer: bool) -> str:
+    """
+    reload_all / initial load while the DescriptionModificationReport that CREATES metric m9 (+ state) arrives during GetMdib:
+    once or twice (copies), optionally preceded by the EpisodicMetricReport of the same transaction (the state report overtook
+    the description report), optionally stemming from ANOTHER InstanceId of the provider; the GetMdib answer does or does not
+    contain m9 already. The load ends initialized with the buffer drained, m9 is present iff it is in the answer or a report
+    of this provider instance newer than the answer created it; no state without descriptor; indices consistent.
+    pre: mvg >= 0
+    pre: mv1 >= 0
+    pre: 1 <= copies <= 2
+    post: __return__ == 'ok'
+    """
+    orc = Oracle()
+    try:
+        from sdc11073.mdib import descriptorcontainers as dc
+        if in_answer and mv1 > mvg:
+            return 'ok'      # functional provider: an answer that already contains m9 is not older than its creation
+        cm = k.mk_consumer(0, containers=_small_containers(False))
+        cm._state = ConsumerMdibState.invalid
+        vg = MdibVersionGroup(mv1, k.SEQ, 2 if other_instance else 1)
+        dmt = msg_types.DescriptionModificationType
+
+        def mk_descr_report():
+            rep = msg_types.DescriptionModificationReport()
+            rep.set_mdib_version_group(vg)
+            part = rep.add_report_part()
+            part.SourceMds, part.ParentDescriptor, part.ModificationType = 'mds0', 'ch0', dmt.CREATE
+            d = dc.StringMetricDescriptorContainer('m9', 'ch0')
+            d.set_source_mds('mds0')
+            st = cm.data_model.get_state_class_for_descriptor(d)(d)
+            part.Descriptor.append(d)
+            part.State.append(st)
+            return rep
+
+        def mk_state_report():
+            rep = msg_types.EpisodicMetricReport()
+            rep.set_mdib_version_group(vg)
+            part = rep.add_report_part()
+            part.SourceMds = 'mds0'
+            d = dc.StringMetricDescriptorContainer('m9', 'ch0')
+            part.values_list.append(cm.data_model.get_state_class_for_descriptor(d)(d))
+            return rep
+        during = []
+        if state_first:
+            during.append(lambda: cm.process_incoming_metric_states_report(vg, mk_state_report()))
+        for _ in range(pick(copies, (1, 2))):
+            during.append(lambda: cm.process_incoming_description_modifications(vg, mk_descr_report()))
+        svc = _GetService2(cm, mvg, in_answer, during)
+        cm._sdc_client = types.SimpleNamespace(client=lambda name: svc, sdc_definitions=k.StubClient.sdc_definitions)
+        try:
+            cm.reload_all()
+        except Exception as ex:  # noqa: BLE001
+            orc.fail('reload_all-fails-on-buffered-report:' + type(ex).__name__)
+        orc.check(cm._state == ConsumerMdibState.initialized, 'not-initialized-after-reload')
+        orc.check(len(cm._buffered_notifications) == 0, 'buffer-not-drained')
+        applied = (not other_instance) and mv1 > mvg
+        with untraced():
+            has_d = cm.descriptions.handle.get_one('m9', allow_none=True) is not None
+            has_s = cm.states.descriptor_handle.get_one('m9', allow_none=True) is not None
+        orc.check(has_d == (in_answer or applied), 'created-descriptor-presence-wrong-after-reload')
+        orc.check(has_s == has_d, 'state-without-descriptor-or-descriptor-without-state')
+        orc.check(cm.instance_id == 1 and cm.sequence_id == k.SEQ, 'identity-of-another-provider-instance-taken-over')
+        orc.check(cm.mdib_version == (mv1 if applied else mvg), 'mdib-version-after-reload-wrong')
         orc.check(_indices_ok(cm), 'index!=scan')
     except Exception as ex:  # noqa: BLE001
         return exc_result(orc, ex)
